@@ -653,7 +653,7 @@ def extra(tier, seed):
             out["nontrivial"].append(case_hash(trace))
         for vio in res.violations:
             out["violations"].append(vio.to_json())
-    out["coverage"] = {"exhaustive": True, "exhaustive_slice": f"{nprog} programs = basis({len(basis)}) x {{b, NOT b}} x {{SEARCH, UID SEARCH}} + basis^2 x {{OR, juxtaposition, list}} on one fixed 5-message mailbox",
+    out["coverage"] = {"exhaustive": False, "bounded_slice_enumerated_completely": True, "exhaustive_slice": f"{nprog} programs = basis({len(basis)}) x {{b, NOT b}} x {{SEARCH, UID SEARCH}} + basis^2 x {{OR, juxtaposition, list}} on one fixed 5-message mailbox",
                        "exhaustive_chunks_with_unjudged_positions": unjudged}
     return out
 
